@@ -53,7 +53,8 @@ class Engine(EngineBase):
     def rule(self):
         return ("seeded operation lists (<= 40) of item/attribute set, delete, update, setdefault, pop, clear, "
                 "reset, nested dict and list mutation, invalid keys/values, reads, restart, remove+re-init, "
-                "re-key of the owning job, buffered enter/exit (nesting <= 3) and buffer capacity in "
+                "re-key of the owning job (also inside a block), kept references and side copies of handles, "
+                "buffered enter/exit (nesting <= 3) and buffer capacity in "
                 "{0, 64, 1024, default}, blocks left normally or by an exception; on 1-3 job documents + the project "
                 "document through 1-3 handles each (opened independently or copy / deepcopy / pickle of the first); "
                 "executed unbuffered, as generated and fully buffered. distinct = operation 3-grams and "
@@ -97,6 +98,11 @@ class Engine(EngineBase):
             if (kind == "stale" and r < 0.10) or (kind == "buffer" and 0.25 <= r < 0.28):
                 # fresh handles (in buffered scenarios also in the middle of a block)
                 ops.append(["restart"])
+                continue
+            if kind == "buffer" and 0.28 <= r < 0.31 and t < ntargets - 1:
+                # the owning job changes its state point (also in the middle of a block, with document
+                # changes still held in the buffer: they must travel with the job)
+                ops.append(["rekey", t, h, rng.randrange(1000)])
                 continue
             if kind == "stale" and r < 0.18 and t < ntargets - 1:
                 ops.append(["remove_reinit", t, h])
@@ -803,7 +809,28 @@ class Run:
         w.handles[t] = others[:h] + [job] + others[h:]
         self.probe("rekey")
         self.probe("stale_path")
-        self.check_target(w, t, f"after {op}")
+        if w.depth():
+            self.probe("rekey_inside_block")
+            if self.blk is not None:
+                # fresh handle objects, and the re-key flushes: which collection is flushed first at the end
+                # is no longer tracked exactly
+                self.blk["simple"] = False
+                self.block_coarse()
+            # the re-keying handle still reads what the block wrote so far
+            seen = job.doc()
+            if not same(seen, self.model[t]) and self.defect_possible.get(t):
+                # the re-key flushes the buffer: with several handles of this document used in the block the
+                # dependency's flush defect (open finding) may strike right here
+                raise Mismatch("C05", "C05:buffered:multi-handle-lost-update",
+                               f"several handles of one document were used inside a buffered block: after {op} "
+                               f"the handle's document shows {str(seen)[:140]}, a dict would hold "
+                               f"{str(self.model[t])[:140]}", "C05:buffered:multi-handle-lost-update")
+            if not same(seen, self.model[t]):
+                raise Mismatch("C05", "C05:rekey-inside-block:document-lost",
+                               f"world {w.mode}: after {op} inside a buffered block the handle's document shows "
+                               f"{str(seen)[:140]}, a dict would hold {str(self.model[t])[:140]}")
+        else:
+            self.check_target(w, t, f"after {op}")
 
     def x_probe_none_over_nested(self, op, w):
         t = op[1]
